@@ -69,6 +69,18 @@ theorem ExprTie_select_shape :
     selKeyword.parseErrorIsError = true ∧ selMark.parseErrorIsError = true ∧ selAfter.parseErrorIsError = true := by
   decide
 
+/-- `select_tasks_by_marks_and_expressions`, interpreted from `deselectSteps` (both selections evaluated first; each guarded
+by `remaining is not None` — `None` meaning "option not given" — and not by the truthiness of the set; every task outside
+`remaining` gets the `skip` mark), is `selectProject`: in particular an EMPTY selection deselects every task. With a
+truthiness guard the interpreter keeps every task for an empty selection (second statement), so such a source no longer
+satisfies the first. -/
+theorem ExprTie_selectProject (isWord : Char → Bool) (lower : List Char → List Char) (kexpr mexpr : List Char)
+    (tasks : List TaskInfo) :
+    selectProjectGen deselectSteps isWord lower kexpr mexpr tasks = selectProject isWord lower kexpr mexpr tasks ∧
+    (∀ i, keptByGen ⟨"select_by_keyword", "truthy", "skip"⟩ (some []) i = true) ∧
+    (∀ i, keptByGen ⟨"select_by_keyword", "isNotNone", "skip"⟩ (some []) i = false) :=
+  ⟨selectProjectGen_eq isWord lower kexpr mexpr tasks, fun _ => by simp [keptByGen], fun _ => by simp [keptByGen]⟩
+
 /-- One iteration of `_modify_dag`'s loop for a task with `after="<expr>"` — evaluate `select_by_after_keyword` on this
 task's own string, discard the task itself, draw edges from the selected tasks' successors — is `afterPredsOf`; the
 translator has established that an iteration reads nothing written by an earlier one (`afterLoop.stateless`; a memo
